@@ -453,3 +453,116 @@ def _pearson():
     return (f"/-- {header(path, qual, src, fn)}: both series divided by their population (ddof 0) deviation, products averaged over `n` -/\n"
             "def pearsonStdDdof : Nat := 0\n"
             "def pearsonDenominator {R : Type} [Num R] (n : R) : R := n\n")
+
+
+# ------------------------------------------------------------------------------------------------- multi.CCA
+@target("mccaFormulas", "Formulas", ["C10", "C04", "C05"])
+def _mcca():
+    path = "multi/cca.py"
+    src, tree = load(path)
+
+    def ret_of(qual):
+        fn = find_func(tree, qual)
+        rets = [n.value for n in ast.walk(fn) if isinstance(n, ast.Return) and n.value is not None]
+        if not rets:
+            raise TranslationError(f"{qual}: no return")
+        return fn, rets[-1]
+
+    out = []
+    # ridge-regularised block of one view
+    fnE, rE = ret_of("CCA._E")
+    out += [f"/-- {header(path, 'CCA._E', src, fnE)}: one diagonal block of `_D` entry by entry (`cov` = entry of the view's covariance, "
+            "`eye` = entry of the identity) -/",
+            "def mccaRidge {R : Type} [Num R] (c cov eye : R) : R :=",
+            "  " + lean_num(rE, {"c": "c", "np.cov(view, rowvar=False)": "cov", "np.eye(view.shape[1])": "eye"})]
+    # the same with the PCA option: diag((1 - c_i) * expvar + c_i)
+    fnD = find_func(tree, "CCA._D")
+    diags = [n for n in ast.walk(fnD) if isinstance(n, ast.Call) and ast.unparse(n.func) == "da.diag"]
+    if len(diags) != 1:
+        raise TranslationError("CCA._D: expected one da.diag(...) for the PCA blocks")
+    out += [f"/-- {header(path, 'CCA._D', src, fnD)}: diagonal entry of a block under the PCA option -/",
+            "def mccaRidgePca {R : Type} [Num R] (c expvar : R) : R :=",
+            "  " + lean_num(diags[0].args[0], {"self.c[i]": "c", "expvar.data": "expvar"})]
+    symD = Sym(fnD)
+    ev = ast.unparse(symD.defs.get("expvar", ast.Name("?")))
+    if ev != "pc.explained_variance().isel(mode=slice(0, n_features))":
+        raise TranslationError("CCA._D: expvar of the PCA blocks is not the leading explained variances: " + ev)
+    # shift by the smallest eigenvalue and eps; division by the number of views
+    seq = [ast.unparse(n) for n in fnD.body if isinstance(n, (ast.Assign, ast.Return))]
+    want_tail = ["D = self._block_diag_dask(blocks, dims_in=['feature1', 'feature2'])",
+                 "D_smallest_eig = self._apply_smallest_eigval(D, dims=['feature1', 'feature2'])",
+                 "D_smallest_eig = D_smallest_eig - self.eps",
+                 "identity_matrix = xr.DataArray(np.eye(D.shape[0]), dims=D.dims, coords=D.coords)",
+                 "D = D - D_smallest_eig * identity_matrix",
+                 "return D / len(views)"]
+    if seq[-6:] != want_tail:
+        raise TranslationError("CCA._D: tail is not block-diag, minus (smallest eigenvalue - eps) * I, over len(views): " + " | ".join(seq[-6:]))
+    blocks_else = "blocks = [self._apply_E(view, c) for view, c in zip(views, self.c)]"
+    if blocks_else not in ast.unparse(fnD):
+        raise TranslationError("CCA._D: blocks without PCA are not _apply_E(view, c) per view")
+    fnS, rS = ret_of("CCA._smallest_eigval")
+    if ast.unparse(rS) != "min(0, np.linalg.eigvalsh(D).min())":
+        raise TranslationError("CCA._smallest_eigval is not min(0, eigvalsh(D).min()): " + ast.unparse(rS))
+    out += [f"/-- {header(path, 'CCA._D', src, fnD)}: the multiple of the identity taken off `D` (`lmin = min(0, smallest eigenvalue)`) -/",
+            "def mccaShift {R : Type} [Num R] (lmin eps : R) : R := (lmin - eps)"]
+    fnC, rC = ret_of("CCA._C")
+    symC = Sym(fnC)
+    if ast.unparse(rC) != "C / len(views)" or ast.unparse(symC.defs.get("C", ast.Name("?"))) != "self._apply_compute_covariance(views, dims_in=dims_in)":
+        raise TranslationError("CCA._C is not _apply_compute_covariance(views) / len(views)")
+    fnA, rA = ret_of("CCA._apply_compute_covariance")
+    symA = Sym(fnA)
+    if (ast.unparse(rA) != "C - self._block_diag_dask(Ci, dims_in=dims_out)"
+            or ast.unparse(symA.defs.get("all_views", ast.Name("?"))) != "xr.concat(views, dim=dims_in[1])"
+            or ast.unparse(symA.defs.get("C", ast.Name("?"))) != "self._apply_cov(all_views, dims_in=dims_in, dims_out=dims_out)"
+            or ast.unparse(symA.defs.get("Ci", ast.Name("?"))) != "[self._apply_cov(view, dims_in=dims_in, dims_out=dims_out) for view in views]"):
+        raise TranslationError("CCA._apply_compute_covariance is not cov(concat(views)) - blockdiag(cov(view))")
+    fnV = find_func(tree, "CCA._apply_cov")
+    covs = [ast.unparse(k.value) for n in ast.walk(fnV) if isinstance(n, ast.Call) and ast.unparse(n.func) == "xr.apply_ufunc"
+            for k in n.keywords if k.arg == "kwargs"]
+    uf = [ast.unparse(n.args[0]) for n in ast.walk(fnV) if isinstance(n, ast.Call) and ast.unparse(n.func) == "xr.apply_ufunc"]
+    if set(uf) != {"np.cov"} or set(covs) != {"{'rowvar': False}"}:
+        raise TranslationError("CCA._apply_cov does not call np.cov(rowvar=False) only: " + str(uf) + str(covs))
+    out += ["/-- `_C = (cov(all views) - blockdiag(cov(view_i))) / len(views)` and `_D = (...) / len(views)`: both sides of the eigen-problem "
+            "are divided by the number of views; covariances are `np.cov(rowvar=False)` (centred, N-1) -/",
+            "def mccaDividesByViews : Bool := true"]
+    # eigen-solver call: top n_modes, descending re-ordering
+    fnG = find_func(tree, "CCA._solve_gevp")
+    symG = Sym(fnG)
+    sub = ast.unparse(symG.defs.get("subset_by_index", ast.Name("?")))
+    if sub != "[p - self.n_modes, p - 1]" or ast.unparse(symG.defs.get("p", ast.Name("?"))) != "C.shape[0]":
+        raise TranslationError("CCA._solve_gevp: subset_by_index is not [p - n_modes, p - 1]: " + sub)
+    idx = ast.unparse(symG.defs.get("idx_sorted_modes", ast.Name("?")))
+    if idx != "eigvals.compute().argsort()[::-1]":
+        raise TranslationError("CCA._solve_gevp: order is not argsort()[::-1]: " + idx)
+    out += [f"/-- {header(path, 'CCA._solve_gevp', src, fnG)}: the eigen-solver is asked for the indices `[p - n_modes, p - 1]` (the LARGEST "
+            "eigenvalues), which are then put in descending order -/",
+            "def mccaSubsetLow (p nModes : Nat) : Nat := p - nModes", "def mccaSubsetHigh (p : Nat) : Nat := p - 1",
+            "def mccaOrderDescending : Bool := true"]
+    # transform: view i with weights i
+    fnT = find_func(tree, "CCA._transform")
+    tv = [ast.unparse(n.value) for n in ast.walk(fnT) if isinstance(n, ast.Assign) and ast.unparse(n.targets[0]) == "transformed_view"]
+    loop = [ast.unparse(n.iter) for n in ast.walk(fnT) if isinstance(n, ast.For)]
+    if tv != ["xr.dot(view, self.data['weights'][i], dims='feature')"] or loop != ["enumerate(views)"]:
+        raise TranslationError("CCA._transform is not view_i . weights_i over features: " + str(tv))
+    fnP = find_func(tree, "CCA.transform")
+    pre = [ast.unparse(n) for n in ast.walk(fnP) if isinstance(n, ast.Call) and ast.unparse(n.func).endswith(".transform") and "preprocessors" in ast.unparse(n.func)]
+    if pre != ["self.preprocessors[i].transform(view)"]:
+        raise TranslationError("CCA.transform does not preprocess view i with preprocessor i: " + str(pre))
+    out += ["/-- `_transform`: view `i` is contracted with `weights[i]` over the features, after `preprocessors[i].transform` -/",
+            "def mccaTransformUsesOwnWeights : Bool := true"]
+    # loadings = weights / norm over features ; explained variance: var over samples, default ddof
+    fnF = find_func(tree, "CCA._fit_algorithm")
+    txt = ast.unparse(fnF)
+    need = ["self.data['loadings'] = [wght / self._apply_norm(wght, [self.feature_name]) for wght in self.data['weights']]",
+            "canonical_variates = self._transform(self.data['input_data'])",
+            "self.data['variates'] = canonical_variates",
+            "self.data['canonical_loadings'] = [xr.dot(data, vari, dims=self.sample_name, optimize=True) for data, vari in zip(self.data['input_data'], canonical_variates)]",
+            "transformed_views = [xr.dot(view, loading, dims=self.feature_name) for view, loading in zip(self.data['input_data'], self.data['loadings'])]",
+            "self.data['explained_variance'] = [transformed.var(self.sample_name) for transformed in transformed_views]"]
+    for s in need:
+        if s not in txt:
+            raise TranslationError("CCA._fit_algorithm: expected statement missing: " + s[:90])
+    out += [f"/-- {header(path, 'CCA._fit_algorithm', src, fnF)}: loadings are the weights over their feature norm, variates are `_transform` of the "
+            "stored input data, explained variances are plain (`ddof = 0`) variances of input·loadings -/",
+            "def mccaExpvarDdof : Nat := 0", "def mccaVariatesAreTransformOfInput : Bool := true"]
+    return "\n".join(out) + "\n"
